@@ -117,6 +117,9 @@ func BuildExpr(e Expr, style string) qframe.Expression {
 			args[i] = a.leafValue()
 		}
 	}
+	// the same operand list is used for two expressions, as a program building several expressions
+	// from one slice would; the one that is evaluated is the second
+	_ = qframe.Expr(e.Op, args...)
 	return qframe.Expr(e.Op, args...)
 }
 
